@@ -69,11 +69,12 @@ def run(cx):
             e = match('(call *resample_at_positions (param curve) $pos)', r) or match('(unwrap (call *resample_at_positions (param curve) $pos))', r)
             cx.ob('EXPR', f'{C}::resample_by_count:sink', e is not None, 'resample_by_count hands its position list to resample_at_positions (which uses at_length)', where=b.file, found=r)
             if e:
-                inits, elems = cx.pushes(b, e['pos'])
-                ok = len(elems) == 1
+                from vpa import comp as CMP
+                comps = [c_ for c_ in CMP.comprehensions(cx, b, e['pos']) if c_.get('elem') is not None]      # push loop over 0..n or (0..n).map(..).collect()
+                ok = len(comps) == 1 and not comps[0]['conds']
                 detail = None
                 if ok:
-                    el = elems[0][2][0]
+                    el = comps[0]['elem']
                     num, den = factors(el)
                     npar = b.local_name(2)
                     ivar = [f for f in num if match(f'(cast f64 (itervar (range 0 (param {npar}))))', f) is not None]
@@ -121,6 +122,19 @@ def run(cx):
                 if match(f'(add _ (div (call f64::sub (call *{C}::length (param curve)) (unwrap (call slice::last _))) 2.0))', val) is not None or \
                         match(f'(add _ (div (sub (call *{C}::length (param curve)) (unwrap (call slice::last _))) 2.0))', val) is not None:
                     okc = True
+            PAD = f'(div (sub (call *{C}::length (param curve)) (unwrap (call slice::last _))) 2.0)'
+            for s_ in b.calls('*::for_each'):
+                # the same shift written as positions.iter_mut().for_each(|p| *p += padding)
+                clo = cx.arg(s_, 1)
+                cl = cx.closure_body(clo[1]) if clo[0] == 'closure' else None
+                if cl is None or len(clo) != 3 or match(PAD, clo[2]) is None:
+                    continue
+                sts = [m for m in cl.mutations() if m.kind == 'store' and m.root == 2 and not m.path]
+                if len(sts) == 1:
+                    v_ = simplify(cl.dag().rvalue(sts[0].data['rv'], sts[0].bb, sts[0].idx))
+                    ops_ = list(v_[1:]) if v_[0] == 'add' and len(v_) == 3 else []
+                    if any(o[0] == 'param' and o[1] == 2 for o in ops_) and any(o[0] == 'field' and str(o[1]).startswith('cap:') and o[2][:2] == ('param', 1) for o in ops_):
+                        okc = True
             cx.ob('EXPR', f'{C}::resample_by_spacing:centred', okc, 'every position is shifted by (length() - last position)/2: equal margins at both ends', where=b.file)
             r = cx.retval(b)
             cx.ob('EXPR', f'{C}::resample_by_spacing:sink', find('(call *resample_at_positions (param curve) _)', r) is not None, 'the centred positions go to resample_at_positions', where=b.file, found=r)
@@ -289,8 +303,11 @@ def run(cx):
     b = cx.fn('common::points::fill_gaps')
     if b:
         pushes = b.calls('Vec::push')
-        orig = [s for s in pushes if match('(itervar (call Iterator::skip (param original) 1))', cx.arg(s, 1)) is not None]
-        fill = [s for s in pushes if find('(call *evenly_spaced_points_between _ _ _)', cx.arg(s, 1)) is not None]
+        # the current original point: the items of original.iter().skip(1) or of &original[1..]; the fillers: pushed one by one or appended with extend
+        PCUR = '(or (itervar (call Iterator::skip (param original) 1)) (itervar (index (param original) (agg *RangeFrom (start 1)))))'
+        orig = [s for s in pushes if match(PCUR, cx.arg(s, 1)) is not None]
+        fill = [s for s in pushes if find('(call *evenly_spaced_points_between _ _ _)', cx.arg(s, 1)) is not None] + \
+            [s for s in b.calls('Vec::extend') if match('(call *evenly_spaced_points_between _ _ _)', cx.arg(s, 1)) is not None]
         pd = b.postdominators()
         ok_orig = len(orig) == 1
         if ok_orig:
@@ -307,7 +324,7 @@ def run(cx):
             g1 = cx.guarded(b, s.bb, '(lt (param max_dist) (call *points::dist (itervar _) (unwrap (call slice::last _))))', True)
             # n was grown until d/(n+1) <= max_dist
             g2 = cx.guarded(b, s.bb, '(lt (param max_dist) (div (call *points::dist (itervar _) (unwrap (call slice::last _))) (cast f64 (add 1 $n))))', False)
-            e = find('(call *evenly_spaced_points_between (unwrap (call slice::last _)) (itervar (call Iterator::skip (param original) 1)) $n)', cx.arg(s, 1))
+            e = find(f'(call *evenly_spaced_points_between (unwrap (call slice::last _)) {PCUR} $n)', cx.arg(s, 1))
             ok_fill = g1 is not None and g2 is not None and e is not None and e[1]['n'] == g2['n']
             # the inserted points come before the original point of the same iteration
             ok_fill = ok_fill and orig and b.dominates(s.bb, orig[0].bb) is False and orig[0].bb in b.reach_from([s.bb])
